@@ -1,10 +1,11 @@
 (* regenerated on every run by harness/cmd/translate (fairmq) from
-   executor/executorcmd/transitioner/fairmq/states.go, .../fairmq/transitions.go,
-   executor/executorcmd/transitioner/fairmq.go (stateMap of NewFairMQTransitioner) and
+   the string constants of package executor/executorcmd/transitioner/fairmq (go/types),
+   the O2 <-> FairMQ state tables as built by NewFairMQTransitioner and applied by the running
+   code (h16 -statemap; inverse table checked to be the converse of this one) and
    executor/protos/occ.pb.go (StateChangeTrigger).  Do not edit. *)
 From Verif Require Import Common.
 Open Scope N_scope.
-(* fairmq/states.go *)
+(* package fairmq: state names *)
 Definition fmq_OK : str := [79;75]. (* "OK" *)
 Definition fmq_ERROR : str := [69;82;82;79;82]. (* "ERROR" *)
 Definition fmq_IDLE : str := [73;68;76;69]. (* "IDLE" *)
@@ -15,7 +16,7 @@ Definition fmq_DEVICE_READY : str := [68;69;86;73;67;69;32;82;69;65;68;89]. (* "
 Definition fmq_READY : str := [82;69;65;68;89]. (* "READY" *)
 Definition fmq_RUNNING : str := [82;85;78;78;73;78;71]. (* "RUNNING" *)
 Definition fmq_EXITING : str := [69;88;73;84;73;78;71]. (* "EXITING" *)
-(* fairmq/transitions.go *)
+(* package fairmq: transition names *)
 Definition evt_AUTO : str := [65;117;116;111]. (* "Auto" *)
 Definition evt_INIT_DEVICE : str := [73;78;73;84;32;68;69;86;73;67;69]. (* "INIT DEVICE" *)
 Definition evt_COMPLETE_INIT : str := [67;79;77;80;76;69;84;69;32;73;78;73;84]. (* "COMPLETE INIT" *)
@@ -27,7 +28,7 @@ Definition evt_STOP : str := [83;84;79;80]. (* "STOP" *)
 Definition evt_RESET_TASK : str := [82;69;83;69;84;32;84;65;83;75]. (* "RESET TASK" *)
 Definition evt_RESET_DEVICE : str := [82;69;83;69;84;32;68;69;86;73;67;69]. (* "RESET DEVICE" *)
 Definition evt_END : str := [69;78;68]. (* "END" *)
-(* fairmq.go: stateMap, O2 state -> FairMQ state, sorted by key *)
+(* O2 state -> FairMQ state, sorted by key *)
 Definition state_map : list (str * str) := [
   ([67;79;78;70;73;71;85;82;69;68], fmq_READY); (* "CONFIGURED": fairmq.READY *)
   ([68;79;78;69], fmq_EXITING); (* "DONE": fairmq.EXITING *)
